@@ -82,3 +82,18 @@ func c03Check(lines []string, path string) {
 	}
 	verif.Reach("evaluated")
 }
+
+// HarnessC03Paths: concrete paths too long for the symbolic bound, in particular ones that match
+// more than one built-in rule, under the defaults alone and with unrelated user rules.
+var c03LongPaths = []string{
+	".terraform/modules/vpc/.git/HEAD", ".terraform/modules/vpc/main.tf", ".terraform/plugins/x", ".git/config", "a/.git/hooks/pre-commit",
+	"mod/.terraform/modules/m/.git/", ".terraform/modules/", ".terraform/modules", ".terraform/", ".gitignore", "x/.terraform/modules/y/z.tf",
+	".git/.terraform/modules/x", ".terraform/modules/.terraform/x", ".terraform/modules/a/.terraform/b", "src/main.tf", ".terraformignore",
+}
+
+func HarnessC03Paths() {
+	text := []string{"", "*.md", "!x", "# c\n", "docs/\n!docs/keep.md"}[verif.Choose("rules", 5)]
+	path := c03LongPaths[verif.Choose("path", len(c03LongPaths))]
+	c03Check(strings.Split(text, "\n"), path)
+	verif.Reach("batch-done")
+}
